@@ -93,16 +93,21 @@ BScale(q_0, P_0) == Let2(q_0, P_0, LAMBDA q, P :
  TLCEval([i \in 1..Len(P) |-> [j \in 1..Len(P) |-> MScale(q, P[i][j])]]))
 BNeg(P) == BScale(QI(-1), P)
 BSub(P, R) == BAdd(P, BNeg(R))
+(* All BiPolys used here are TRIANGULAR: the coefficient of a^i L^j vanishes for   *)
+(* j > i (every logarithm comes with a power of the coupling).  BMul relies on it  *)
+(* and never touches cells above the diagonal.                                     *)
 RECURSIVE BConvJ(_, _, _, _, _, _)
 BConvJ(P, R, i1, i2, j, j1) ==     \* sum_{j1'=0..j1} P[i1][j1'] R[i2][j-j1']
   IF j1 < 0 THEN MZero(BD(P))
+  ELSE IF j1 > i1 \/ j - j1 > i2 THEN BConvJ(P, R, i1, i2, j, j1 - 1)
   ELSE MAdd(MMul(P[i1 + 1][j1 + 1], R[i2 + 1][j - j1 + 1]), BConvJ(P, R, i1, i2, j, j1 - 1))
 RECURSIVE BConvI(_, _, _, _, _)
 BConvI(P, R, i, j, i1) ==
   IF i1 < 0 THEN MZero(BD(P))
   ELSE MAdd(BConvJ(P, R, i1, i - i1, j, j), BConvI(P, R, i, j, i1 - 1))
 BMul(P_0, R_0) == Let2(P_0, R_0, LAMBDA P, R :
- TLCEval([i \in 1..Len(P) |-> [j \in 1..Len(P) |-> BConvI(P, R, i - 1, j - 1, i - 1)]]))
+ TLCEval([i \in 1..Len(P) |-> [j \in 1..Len(P) |->
+    IF j > i THEN MZero(BD(P)) ELSE BConvI(P, R, i - 1, j - 1, i - 1)]]))
 BEq(P_0, R_0) == Let2(P_0, R_0, LAMBDA P, R :
  \A i \in 1..Len(P) : \A j \in 1..Len(P) : MEq(P[i][j], R[i][j]))
 (* d/dL and the integral from 0 to L                                            *)
@@ -128,17 +133,20 @@ BRowEval(P_0, i, l_0, j) == Let2(P_0, l_0, LAMBDA P, l :
  IF j = Len(P) THEN P[i + 1][j] ELSE MAdd(P[i + 1][j], MScale(l, BRowEval(P, i, l, j + 1))))
 BEvalL(P_0, l_0) == Let2(P_0, l_0, LAMBDA P, l :
  TLCEval([i \in 1..Len(P) |-> BRowEval(P, i - 1, l, 1)]))
-(* substitute a scalar (1 x 1, commuting) polynomial G for a in the scalar P:    *)
-(* P(G) = sum_i sum_j P[i][j] L^j G^i                                            *)
-RECURSIVE BComposeFrom(_, _, _)
-BRowAsPoly(P_0, i) == Let1(P_0, LAMBDA P :
-     \* sum_j P[i][j] L^j as a BiPoly of a-degree 0
-  TLCEval([i2 \in 1..Len(P) |-> [j \in 1..Len(P) |-> IF i2 = 1 THEN P[i + 1][j] ELSE MZero(BD(P))]]))
-BComposeFrom(P_0, G_0, i) == Let2(P_0, G_0, LAMBDA P, G :
-  \* Horner in G from a-degree i
-  IF i = BN(P) THEN BRowAsPoly(P, i)
-  ELSE BAdd(BRowAsPoly(P, i), BMul(G, BComposeFrom(P, G, i + 1))))
-BCompose(P, G) == BComposeFrom(P, G, 0)
+(* substitute a scalar (1 x 1, commuting) polynomial G for a in the scalar P:      *)
+(* P(G) = sum_i (sum_j P[i][j] L^j) G^i.  The L-polynomial multiplying G^i is not   *)
+(* a triangular BiPoly, so it is applied row-wise (BMulRow).                        *)
+RECURSIVE BRowConv(_, _, _, _, _, _)
+BRowConv(P, i0, X, i, j, j1) ==   \* sum_{j1'=0..j1} P[i0][j1'] X[i][j-j1']
+  IF j1 < 0 THEN MZero(BD(P))
+  ELSE MAdd(MMul(P[i0 + 1][j1 + 1], X[i + 1][j - j1 + 1]), BRowConv(P, i0, X, i, j, j1 - 1))
+BMulRow(P_0, i0, X_0) == Let2(P_0, X_0, LAMBDA P, X :
+  TLCEval([i \in 1..Len(P) |-> [j \in 1..Len(P) |-> BRowConv(P, i0, X, i - 1, j - 1, j - 1)]]))
+RECURSIVE BComposeFrom(_, _, _, _)
+BComposeFrom(P_0, G_0, Gpow_0, i) == Let3(P_0, G_0, Gpow_0, LAMBDA P, G, Gpow :   \* Gpow = G^i
+  IF i > BN(P) THEN BZero(BD(P), BN(P))
+  ELSE BAdd(BMulRow(P, i, Gpow), BComposeFrom(P, G, BMul(Gpow, G), i + 1)))
+BCompose(P, G) == BComposeFrom(P, G, BOne(BD(P), BN(P)), 0)
 (* keep a-degree <= n                                                           *)
 BTruncA(P_0, n) == Let1(P_0, LAMBDA P :
  TLCEval([i \in 1..Len(P) |-> [j \in 1..Len(P) |->
@@ -150,6 +158,30 @@ BFirstDiff(P_0, R_0) == Let2(P_0, R_0, LAMBDA P, R :
         /\ ~MEq(P[p[1] + 1][p[2] + 1], R[p[1] + 1][p[2] + 1])
         /\ \A q \in (0..BN(P)) \X (0..BN(P)) :
               (q[1] < p[1] \/ (q[1] = p[1] /\ q[2] < p[2])) => MEq(P[q[1] + 1][q[2] + 1], R[q[1] + 1][q[2] + 1]))
+
+(* ---------------- scalar polynomials in (a, L): cells are rationals ------------- *)
+(* (the same algebra without the 1 x 1 matrix wrapping; triangular as above)          *)
+PZero(N) == TLCEval([i \in 1..(N + 1) |-> [j \in 1..(N + 1) |-> Q0]])
+PMonoA(N, i0) == TLCEval([i \in 1..(N + 1) |-> [j \in 1..(N + 1) |-> IF i = i0 + 1 /\ j = 1 THEN Q1 ELSE Q0]])
+PAdd(P_0, R_0) == Let2(P_0, R_0, LAMBDA P, R :
+  TLCEval([i \in 1..Len(P) |-> [j \in 1..Len(P) |-> QAdd(P[i][j], R[i][j])]]))
+PScale(q_0, P_0) == Let2(q_0, P_0, LAMBDA q, P :
+  TLCEval([i \in 1..Len(P) |-> [j \in 1..Len(P) |-> QMul(q, P[i][j])]]))
+RECURSIVE PConvJ(_, _, _, _, _, _)
+PConvJ(P, R, i1, i2, j, j1) ==
+  IF j1 < 0 THEN Q0
+  ELSE IF j1 > i1 \/ j - j1 > i2 \/ P[i1 + 1][j1 + 1][1] = 0 THEN PConvJ(P, R, i1, i2, j, j1 - 1)
+  ELSE QAdd(QMul(P[i1 + 1][j1 + 1], R[i2 + 1][j - j1 + 1]), PConvJ(P, R, i1, i2, j, j1 - 1))
+RECURSIVE PConvI(_, _, _, _, _)
+PConvI(P, R, i, j, i1) ==
+  IF i1 < 0 THEN Q0 ELSE QAdd(PConvJ(P, R, i1, i - i1, j, j), PConvI(P, R, i, j, i1 - 1))
+PMul(P_0, R_0) == Let2(P_0, R_0, LAMBDA P, R :
+  TLCEval([i \in 1..Len(P) |-> [j \in 1..Len(P) |-> IF j > i THEN Q0 ELSE PConvI(P, R, i - 1, j - 1, i - 1)]]))
+PIntL(P_0) == Let1(P_0, LAMBDA P :
+  TLCEval([i \in 1..Len(P) |-> [j \in 1..Len(P) |-> IF j = 1 THEN Q0 ELSE QMul(QF(1, j - 1), P[i][j - 1])]]))
+(* scalar polynomial -> d x d BiPoly (multiples of the identity)                       *)
+BOfScalar(P_0, d) == Let1(P_0, LAMBDA P :
+  TLCEval([i \in 1..Len(P) |-> [j \in 1..Len(P) |-> MScalar(d, P[i][j])]]))
 
 (* ============================ C22: matching ================================= *)
 (* Forward matching operator of order n built from the OME list A = <<A1,A2,A3>> *)
